@@ -80,7 +80,7 @@ T = '''
         requires
             old(self).wf(), // [C15.fill]PREBOUNDOLD
         ensures
-            final(self).wf(), // [C15.fill]
+            final(self).wf(), // [C15.fill] [C06.dbg] the scratch heap is handed back empty (the next fill's debug assertion)
             (*final(buffer)).cap() == (*old(buffer)).cap(),
             forall|lo: int, hi: int| old(self).data_bounded(lo, hi) ==> final(self).data_bounded(lo, hi),
             forall|p: spec_fn(Seq<u8>) -> bool| old(self).data_all(p) ==> final(self).data_all(p), // [C07.roundtrip] no new bytes enter a backlog by sending
